@@ -20,7 +20,8 @@ const fuzzMinLen = 48
 
 // FuzzDecode maps raw bytes to an init event and a number of Steps (1..3).
 // layout: 0..19 byte registers, 20..21 SP, 22..23 PC, 24 I, 25 R, 26 iff/im, 27 halt/steps/io,
-//         28 device seed, 29..36 instruction bytes, 37.. (addrLo, addrHi, value)* , pending request tail
+//
+//	28 device seed, 29..36 instruction bytes, 37.. (addrLo, addrHi, value)* , pending request tail
 func FuzzDecode(data []byte) (*InitSpec, int, bool) {
 	if len(data) < fuzzMinLen {
 		return nil, 0, false
